@@ -14,7 +14,7 @@ Ltac c11_unfold1 :=
   cbv beta iota zeta delta
       [miner_original miner_elementary miner_haibach damage damage_sum
        solidity_haibach solidity_fkm lm_elementary haibach_sum1 haibach_sum2 lm_haibach
-       gassner_cycles gassner_cycles_occ gassner_curve scale_cycles scale_amps apply_for hist_coll or_else
+       gassner_cycles gassner_cycles_occ gassner_cycles_split gassner_curve scale_cycles scale_amps apply_for hist_coll or_else
        k1 k2 ND SD].
 (* layer 2: everything *)
 Ltac c11_unfold2 :=
